@@ -11,6 +11,6 @@ cp -r $R/tests/mocks $S/ap/verifmocks
 cp -r /verif/sim $S/h
 printf 'module verif.local/sim\n\ngo 1.23\n\nrequire github.com/go-ap/activitypub v0.0.0\n\nreplace github.com/go-ap/activitypub => ../ap\n' > $S/h/go.mod
 cp $S/ap/go.sum $S/h/go.sum 2>/dev/null || true
-cd $S/h && go build -gcflags=all=-d=checkptr=1 -o $S/sim ./cmd/sim
+cd $S/h && go build -gcflags=github.com/go-ap/activitypub=-d=checkptr=1 -o $S/sim ./cmd/sim
 [ "$1" = race ] && go build -race -gcflags=all=-d=checkptr=0 -o $S/sim-race ./cmd/sim
 echo built $S/sim
